@@ -240,6 +240,12 @@ def cases(ctx):
 
 
 def run_case(ctx, case: dict) -> None:
+    if case.get("kind") == "resend-after-release":
+        from ..harness import run as arun
+        from .c12 import resend_after_release_case
+
+        arun(resend_after_release_case(ctx, case))
+        return
     if case.get("kind") == "vanished-child":
         from .. import harness
         from ..harness import run as arun
@@ -263,8 +269,12 @@ def release_despite_stale_neighbours(ctx) -> None:
 
     from .. import harness
     from ..harness import run as arun
-    from .c12 import vanished_child_case
+    from .c12 import resend_after_release_case, vanished_child_case
 
+    for i, (version, update) in enumerate(itertools.product(("2.0", "2.1", "2.2"), (False, True))):
+        if ctx.mine(i):
+            arun(resend_after_release_case(ctx, {"kind": "resend-after-release", "version": version, "ack": i % 2, "rounds": 3,
+                                                 "update_payload": update, "fail_between": bool(i % 2)}))
     index = 0
     for extra in [{}, *harness.unknown_options()]:
         for version in ("2.0", "2.1", "2.2"):
